@@ -242,7 +242,7 @@ func (w *c13World) sendReady(id int) bool {
 func (w *c13World) recvReady(id int) bool { return w.closed[id] || len(w.chans[id]) > 0 }
 
 func contextWithTimeout(d time.Duration) (context.Context, context.CancelFunc) {
-	return context.WithTimeout(context.Background(), d)
+	return hangCtx(d)
 }
 
 func c13Unsafe(tok string) bool {
@@ -283,7 +283,7 @@ func execChanSeq(ops []Op) []string {
 	select {
 	case r := <-done:
 		return r.lines
-	case <-time.After(c13BlockTimeout()):
+	case <-hangAfter(c13BlockTimeout()):
 		atomic.AddInt32(&c13Blocked, 1)
 		return []string{"X blocked => a channel operation that Go semantics makes non-blocking did not return (case starts with: " + opsToStrings(ops)[0] + ")"}
 	}
@@ -742,7 +742,7 @@ func c13Exec(run *Run, res *c13ChildResult, exe, mode string) {
 		if err != nil {
 			res.lines = append(res.lines, "X child-exit => "+err.Error()+" "+c13Trunc(stderr.String(), 400))
 		}
-	case <-time.After(limit):
+	case <-hangAfterCap(limit, 4):
 		cmd.Process.Kill()
 		<-waitc
 		hung = true
